@@ -185,6 +185,7 @@ def _succs(b):
 
 
 def duplicate_return_tails(j, max_blocks=8, max_stmts=24, max_preds=12):
+    if os.environ.get("VERIF_DEV_NO_TAILDUP"): return      # development switch (bisecting a normalisation); never set by ./check
     """tail duplication: a join block from which the function runs straight to its `return` (a hoisted common tail such as
     `self.usage -= len; Some(message)` or `self.last_received = now; payload` after a `match`) is cloned for each predecessor, so that what
     the tail does is again dominated by the arm that leads to it. Purely a CFG normalisation: no path is added or removed."""
@@ -288,6 +289,7 @@ def thread_known_variants(j, max_chain=5):
         on = tm["on"]
         if on["k"] not in ("copy", "move") or on["place"]["proj"]: return None
         c = on["place"]["local"]
+        if os.environ.get("VERIF_DEV_NO_CORR"): return None   # development switch; never set by ./check
         vals = [v for v, x in tm["targets"] if x == target]
         oth = tm["otherwise"] == target
         if len(vals) == 1 and not oth: return (c, vals[0])
